@@ -30,6 +30,9 @@ Definition t_ch2 := TChoice [TInt KU8; TBytes].
 Definition t_ch := TChoice [TInt KI16; TBool; TStr; t_inner; t_ch2; t_color].
 Definition t_tup := TSeq [r (TInt KU16)].
 Definition t_tupl := TSeq [r (TSeqOf TStr)].
+(* a message that can be blank: zero bytes of content *)
+Definition t_blank := TSeq [o (TInt KU8); o TStr; o (TSeqOf TBool)].
+Definition t_chblank := TChoice [t_blank; TInt KU8].
 
 Definition zoo_ty (id : Z) : option pty :=
   match id with
@@ -57,6 +60,10 @@ Definition zoo_ty (id : Z) : option pty :=
   | 19 => Some (TSeq [r (TSeqOf (TSeqOf (TInt KU8))); r (TInt KU8)])
   | 20 => Some (TChoice [TSeqOf (TInt KU8); TInt KU8])
   | 21 => Some (TSeq [r (TSeqOf TNull); r (TInt KU8)])
+  | 22 => Some t_blank
+  | 23 => Some (TSeq [r (TSeqOf t_blank); r (TInt KU8)])
+  | 24 => Some t_chblank
+  | 25 => Some (TSeq [r t_blank; o t_blank; r t_chblank; r TBool])
   | _ => None
   end.
 
